@@ -195,6 +195,7 @@ class SimNet:
         self.drop_tx = None  # (tx_index, receiver-name or None): the single forced loss (C07)
         self.b2b_all = False  # C16: duplicate every delivery back to back
         self.b2b_filter = None
+        self.b2b_gap = 0.0  # seconds of virtual time between a datagram and its back-to-back copy
         self.content_keyed = False
         self.corruptor = None  # callable(data, rng) -> data
         self.on_tx = None  # observer(tx)
@@ -310,6 +311,9 @@ class SimNet:
     def _deliver(self, rsock, data, addr, tx_idx, copies):
         world = self.world
         for copy in range(copies):
+            if copy and self.b2b_gap:
+                # the link-layer copy is read from the socket a moment later (still nothing in between)
+                self.loop._now += self.b2b_gap
             if rsock.closed or (rsock.transport is not None and not rsock.transport._receiving
                                 and rsock.transport._closing):
                 self.fault_counts["discard_closed"] += 1
